@@ -209,6 +209,7 @@ type eventList struct {
 	seqs    sequenceNumSlice
 	events  map[sequenceNum]*event
 	lastSeq sequenceNum
+	hasLast bool // hasLast is true once lastSeq holds a delivered sequence.
 	maxSize int
 	timeout time.Duration
 }
@@ -220,6 +221,23 @@ func newEventList(maxSize int, timeout time.Duration) *eventList {
 		maxSize: maxSize,
 		timeout: timeout,
 	}
+}
+
+// advance records seq as delivered and returns how many sequence numbers were
+// skipped since the last in-order delivery. A late or duplicate seq (one that
+// is not ahead of lastSeq in uint32 serial-number order) counts nothing and
+// does not move lastSeq backwards.
+func (l *eventList) advance(seq sequenceNum) int {
+	if !l.hasLast {
+		l.hasLast, l.lastSeq = true, seq
+		return 0
+	}
+	ahead := seq - l.lastSeq // Wraps on rollover.
+	if ahead == 0 || ahead >= 1<<31 {
+		return 0
+	}
+	l.lastSeq = seq
+	return int(ahead - 1)
 }
 
 // remove the first event (lowest sequence) in the list.
@@ -250,10 +268,7 @@ func (l *eventList) Clear() ([]*event, int) {
 		seq = l.seqs[0]
 		event := l.events[seq]
 
-		if l.lastSeq > 0 {
-			lost += int(seq - l.lastSeq - 1)
-		}
-		l.lastSeq = seq
+		lost += l.advance(seq)
 		evicted = append(evicted, event)
 		l.remove()
 	}
@@ -309,10 +324,7 @@ func (l *eventList) CleanUp() ([]*event, int) {
 		event := l.events[seq]
 
 		if event.complete || size > l.maxSize || event.IsExpired() {
-			if l.lastSeq > 0 {
-				lost += int(seq - l.lastSeq - 1)
-			}
-			l.lastSeq = seq
+			lost += l.advance(seq)
 			evicted = append(evicted, event)
 			l.remove()
 			continue
